@@ -23,6 +23,7 @@ func init() {
 		},
 		Run: runC08,
 		Controls: []Control{
+			{Name: "attribute-equality-completed-by-otc", File: "route/bgp_path.go", Old: "\tif b.EBGP != c.EBGP || b.AtomicAggregate != c.AtomicAggregate || b.Origin != c.Origin {", New: "\tif b.EBGP != c.EBGP || b.AtomicAggregate != c.AtomicAggregate || b.Origin != c.Origin || b.OnlyToCustomer != c.OnlyToCustomer {", Expect: "removal-key-avoids-export-only-rewrites"},
 			{Name: "not-found-decided-by-pointer-identity", File: "routingtable/adjRIBOut/adj_rib_out.go", Old: "\t\tif !found {\n\t\t\treturn false\n\t\t}\n", New: "\t\tif !found || sentPath == p {\n\t\t\treturn false\n\t\t}\n", Expect: "table-removal-is-withdrawn"},
 			{Name: "remove-uses-pre-policy-key", File: "routingtable/adjRIBOut/adj_rib_out.go", Old: "\tp, reject := a.exportFilterChain.Process(pfx, p)\n\tif reject {\n\t\treturn false\n\t}\n\n\treturn a.removeExportedPath(pfx, p)", New: "\t_, reject := a.exportFilterChain.Process(pfx, p)\n\tif reject {\n\t\treturn false\n\t}\n\n\treturn a.removeExportedPath(pfx, p)", Expect: "export-transformers-paired"},
 			{Name: "add-skips-propagation-rules", File: "routingtable/adjRIBOut/adj_rib_out.go", Old: "\tp, propagate := a.checkPropagateUpdate(pfx, p)\n\tif !propagate {\n\t\treturn nil\n\t}\n\n\tp, reject := a.exportFilterChain.Process(pfx, p)\n\tif reject {\n\t\treturn nil\n\t}\n\n\tp.BGPPath = p.BGPPath.Dedup()", New: "\tp, reject := a.exportFilterChain.Process(pfx, p)\n\tif reject {\n\t\treturn nil\n\t}\n\n\tp.BGPPath = p.BGPPath.Dedup()", Expect: "export-transformers-paired"},
@@ -230,6 +231,7 @@ func runC08(c *core.Ctx) {
 	tableRemovalIsWithdrawn(c, "table-removal-is-withdrawn")
 	p := c.P
 	exportTransformerPairing(c)
+	removalKeyAvoidsExportOnlyRewrites(c)
 
 	// (2) stores are gated by the verdicts ---------------------------------------------------------------
 	for _, k := range []string{outPkg + ".(*AdjRIBOut).AddPath"} {
